@@ -1,14 +1,42 @@
 import TonicModel.Model.Health
 import TonicModel.Spec.Health
-namespace C18
-open Health
+import TonicModel.Lemmas.HealthSpec
+import TonicModel.Lemmas.Health
+/-
+C18 — Health service reports the latest status to Check and Watch.
+Property theorems only; helper lemmas live in `Lemmas/Health*.lean`.
 
-/-- Before any update, Check answers SERVING for the empty name and NOT_FOUND for every other. -/
-theorem C18_initial_check (n : Name) :
-    (step init (.check n)).2 = if n = [] then .status .serving else .notFound := by
-  by_cases h : n = []
-  · subst h; rfl
-  · have : ¬ ([] = n) := fun e => h e.symm
-    simp [step, init, lookup, this, h]
+Vocabulary: `Health.step / exec / run / hist` are the model of tonic-health/src/server.rs
+(`Model/Health`); `Spec.Health.*` is the oracle that only scans the log of past events
+(`Spec/Health`).  Operation sequences `ops : List Op` are arbitrary: any interleaving of
+`set`, `clear`, `check`, `watch`, `next w`, `drop w`, of any length, over any names.
+-/
+namespace C18
+open Health Spec.Health
+
+/-- Refinement: on every operation sequence the model of tonic-health answers exactly like the
+reference interpreter, which keeps nothing but the log of past events and answers each call by
+scanning it (Check = last set since the last clear; a stream delivers the latest status of its
+registration when it has not delivered yet or an update came since, ends once cleared, waits
+otherwise). -/
+theorem C18_refines_oracle (ops : List Op) : Health.run init ops = Spec.Health.run [] ops :=
+  run_eq sim_init ops
+
+/-- Every answer the model gives, on every operation sequence, passes the property's clauses
+(`Spec.Health.clauses`: Check is the latest status / NOT_FOUND; a stream's delivery is a status
+that was set, is the latest one, the first poll delivers; a stream is silent only when up to
+date and registered; it ends only after a clear and after the undelivered status). -/
+theorem C18_answers_allowed (ops : List Op) :
+    allowedTrace [] (ops.zip (Health.run init ops)) = true := by
+  rw [C18_refines_oracle]; exact allowedTrace_run [] trivial ops
+
+/-- Check, after any history: the status most recently set for that name since it was last
+cleared (`Spec.Health.current` of the log), else NOT_FOUND. -/
+theorem C18_check_is_current (ops : List Op) (n : Name) :
+    (step (exec init ops) (.check n)).2 =
+      (match current (hist init [] ops) n with
+       | some s => Resp.status s
+       | none => Resp.notFound) := by
+  rw [answer_eq]; rfl
 
 end C18
